@@ -292,7 +292,7 @@ def str_bytes(tok):
 
 def const_expr(src, name):
     """initialiser text of `const NAME: T = <expr>;` / `static NAME …` anywhere in src (None if there is none)"""
-    m = re.search(r"\b(?:const|static)\s+" + re.escape(name) + r"\s*:\s*[^=;]+?=\s*", src)
+    m = re.search(r"\b(?:const|static)\s+" + re.escape(name) + r"\s*:\s*(?:[^=;\[]|\[[^\]]*\])+?=\s*", src)
     if not m:
         return None
     i, depth = m.end(), 0
@@ -346,6 +346,23 @@ def deref(expr, body="", src="", depth=3):
     return e
 
 
+def is_alias(expr, target, body, depth=3):
+    """is `expr` the variable `target`, possibly through casts (`x as usize`) and `let tmp = x as usize;` hops in body"""
+    e = strip_parens(expr)
+    while depth >= 0:
+        e = strip_parens(re.sub(r"\s+as\s+\w+$", "", e).strip())
+        if e == target:
+            return True
+        if not re.fullmatch(r"[A-Za-z_]\w*", e):
+            return False
+        v = let_expr(body, e)
+        if v is None:
+            return False
+        e = strip_parens(v)
+        depth -= 1
+    return False
+
+
 def byte_string(expr, body="", src=""):
     """the bytes denoted by b"…", "…", &[A, B], [A, B], [V; N], *b"…", b"…".to_vec(), "…".as_bytes(), or a const / let
     bound to one of these"""
@@ -381,6 +398,16 @@ def pattern_set(pat, body="", src=""):
 
 
 ALL_BYTES = frozenset(range(256))
+ASCII_CLASSES = {
+    "is_ascii_digit": range(48, 58),
+    "is_ascii_hexdigit": list(range(48, 58)) + list(range(65, 71)) + list(range(97, 103)),
+    "is_ascii_whitespace": [9, 10, 12, 13, 32],
+    "is_ascii_uppercase": range(65, 91),
+    "is_ascii_lowercase": range(97, 123),
+    "is_ascii_alphabetic": list(range(65, 91)) + list(range(97, 123)),
+    "is_ascii_alphanumeric": list(range(48, 58)) + list(range(65, 91)) + list(range(97, 123)),
+    "is_ascii": range(0, 128),
+}
 
 
 class Arm:
@@ -636,6 +663,18 @@ def byte_set(expr, var=None, src="", _depth=1, body=""):
             if not isvar(other):
                 raise ValueError("comparison of something else: %r" % e[:60])
             return {val} if op == "==" else set(ALL_BYTES) - {val}
+        m = re.fullmatch(r"([^<>=]+?)\s*(<=|>=|<|>)\s*([^<>=]+)", e, flags=re.S)
+        if m:
+            a, op, b = m.group(1), m.group(2), m.group(3)
+            try:
+                val, other = int_value(deref(b, body, src)), a
+            except ValueError:
+                val, other = int_value(deref(a, body, src)), b
+                op = {"<": ">", ">": "<", "<=": ">=", ">=": "<="}[op]
+            if not isvar(other):
+                raise ValueError("comparison of something else: %r" % e[:60])
+            test = {"<": lambda x: x < val, "<=": lambda x: x <= val, ">": lambda x: x > val, ">=": lambda x: x >= val}[op]
+            return set(x for x in ALL_BYTES if test(x))
         m = re.fullmatch(r"(.+)\.contains\(\s*(&?\s*\w+)\s*\)", e, flags=re.S)
         if m and isvar(m.group(2)):
             recv = strip_parens(m.group(1))
@@ -643,6 +682,9 @@ def byte_set(expr, var=None, src="", _depth=1, body=""):
             if mm:
                 return set(range(byte_value(deref(mm.group(1), body, src)), byte_value(deref(mm.group(2), body, src)) + 1))
             return set(byte_string(recv, body, src))
+        m = re.fullmatch(r"(\*?\w+)\s*\.\s*(is_ascii_\w+)\s*\(\s*\)", e)
+        if m and m.group(2) in ASCII_CLASSES and isvar(m.group(1)):
+            return set(ASCII_CLASSES[m.group(2)])
         m = re.fullmatch(r"(?:self\s*\.\s*|Self\s*::\s*)?(\w+)\s*\(\s*([&*]?\s*\w+)\s*\)", e)
         if m and _depth > 0 and src and isvar(m.group(2)):
             fb = fn_body(src, m.group(1))
@@ -718,6 +760,87 @@ def min_consts(body, operand=r"[\w.]+(?:\(\))?"):
     return [(a, b) for a, b, _ in out]
 
 
+def closures(body, method):
+    """[(parameter text, expression text)] of every `.method(|params| expr)` call in body"""
+    out = []
+    for m in re.finditer(r"\.\s*" + method + r"\s*\(\s*(?:move\s+)?\|", body):
+        o = body.rindex("(", m.start(), m.end())
+        c = close_of(body, o)
+        inner = body[m.end():c]
+        bar = inner.index("|")
+        out.append((inner[:bar].strip(), inner[bar + 1:].strip()))
+    return out
+
+
+def closure_var(params):
+    """the identifier bound by a one-parameter closure head: `&b`, `b`, `&mut b`, `b: u8`"""
+    m = re.fullmatch(r"&?\s*(?:mut\s+)?&?\s*(\w+)\s*(?::[^|]*)?", params.strip())
+    if not m:
+        raise ValueError("closure parameter %r" % params)
+    return m.group(1)
+
+
+def affine(expr, var):
+    """k such that expr == var + k, for an expression made of `var` (optionally `var as T`) and integer / byte literals joined
+    by + and - in any order (`b'a' - 10 + c`, `c - b'a' + 0xa`); raises otherwise"""
+    e = strip_parens(expr)
+    terms, sign, cur, depth, i = [], 1, "", 0, 0
+    while i < len(e):
+        k = skip_literal(e, i)
+        if k is not None:
+            cur += e[i:k]
+            i = k
+            continue
+        c = e[i]
+        if c in OPEN:
+            depth += 1
+        elif c in CLOSE:
+            depth -= 1
+        if c in "+-" and depth == 0 and cur.strip():
+            terms.append((sign, cur.strip()))
+            sign, cur = (1 if c == "+" else -1), ""
+        elif c in "+-" and depth == 0:
+            sign = sign if c == "+" else -sign
+        else:
+            cur += c
+        i += 1
+    if cur.strip():
+        terms.append((sign, cur.strip()))
+    k, nvar = 0, 0
+    for sg, t in terms:
+        t = strip_parens(t)
+        t = re.sub(r"\s+as\s+\w+$", "", t).strip()
+        t = strip_parens(t)
+        if t == var or t == "*" + var:
+            nvar += sg
+        else:
+            k += sg * int_value(t)
+    if nvar != 1:
+        raise ValueError("not %s + constant: %r" % (var, expr[:50]))
+    return k
+
+
+def range_arms(fnbody, param=None):
+    """[(lo, hi, k)] for the arms `[v @] LO ..= HI => [Some(] v' + k [)]` of the (first) match in fnbody, where v' is the
+    binding v or the scrutinee; other arms are ignored"""
+    m = re.search(r"\bmatch\s+(\*?\w+)\s*\{", fnbody)
+    if not m:
+        raise KeyError("match")
+    scrut = m.group(1).lstrip("*")
+    out = []
+    for arm in match_arms(fnbody, re.escape(m.group(1))):
+        mm = re.fullmatch(r"(?:(\w+)\s*@\s*)?(" + BYTE + r")\s*\.\.=\s*(" + BYTE + r")", arm.pattern)
+        if not mm or arm.guard:
+            continue
+        v = mm.group(1) or scrut
+        e = arm.expr
+        ms = re.fullmatch(r"Some\s*\((.*)\)", e, flags=re.S)
+        if ms:
+            e = ms.group(1)
+        out.append((int_value(mm.group(2)), int_value(mm.group(3)), affine(e, v)))
+    return out
+
+
 def norm_ws(s):
     return re.sub(r"\s+", "", s)
 
@@ -766,91 +889,91 @@ def main():
 
     # ---- enc.rs ------------------------------------------------------------
     def nibble():
-        b = fn_body(enc, "decode_nibble")
-        out = []
-        for m in re.finditer(r"(\w+)\s*@\s*(" + LIT + r")\s*\.\.=\s*(" + LIT + r")\s*=>\s*Some\(\s*\1\s*-\s*(" + LIT + r")\s*(?:\+\s*(" + LIT + r"))?\s*\)", b):
-            lo, hi, sub, add = lit(m.group(2)), lit(m.group(3)), lit(m.group(4)), lit(m.group(5)) if m.group(5) else 0
-            if sub != lo:
-                raise ValueError("decode_nibble arm subtracts %d, range starts %d" % (sub, lo))
-            out.append((lo, hi, add))
-        if not out:
-            raise ValueError("no arms")
-        return ctuples(out)
+        # arms  v @ LO ..= HI => Some(v - LO + ADD): (lo, hi, add)
+        out = [(lo, hi, k + lo) for lo, hi, k in range_arms(fn_body(enc, "decode_nibble"))]
+        if not out or any(add < 0 for _, _, add in out):
+            raise ValueError("no arms / an arm subtracts more than its range start")
+        return ctuples(ordered_by_key(out, [48, 97, 65]))
     g.attempt([("nibble_ranges", "list (N * N * N)")], "enc.rs:decode_nibble", nibble)
 
     def enc_nibble():
-        b = fn_body(enc, "encode_nibble")
-        out = []
-        for m in re.finditer(r"(" + LIT + r")\s*\.\.=\s*(" + LIT + r")\s*=>\s*([^,\n]+)", b):
-            lo, hi = lit(m.group(1)), lit(m.group(2))
-            expr = m.group(3)
-            # forms: b'0'+ c   |   b'a' - 10 + c
-            mm = re.fullmatch(r"\s*(" + LIT + r")\s*(?:-\s*(" + LIT + r")\s*)?\+\s*c\s*", expr)
-            if not mm:
-                raise ValueError("encode_nibble arm " + expr)
-            base = lit(mm.group(1)) - (lit(mm.group(2)) if mm.group(2) else 0)
-            # value = base + c ; our table computes c - lo + b0
-            out.append((lo, hi, base + lo))
+        # arms  LO ..= HI => BASE + c: our table computes c - lo + b0 with b0 = BASE + lo
+        out = [(lo, hi, k + lo) for lo, hi, k in range_arms(fn_body(enc, "encode_nibble"))]
         if not out:
             raise ValueError("no arms")
-        return ctuples(out)
+        return ctuples(ordered_by_key(out))
     g.attempt([("enc_nibble_ranges", "list (N * N * N)")], "enc.rs:encode_nibble", enc_nibble)
+
+    def dropped_by_filter(b):
+        """bytes that the `.filter(|b| …)` of a decoder drops"""
+        (params, expr), = closures(b, "filter")
+        return sorted(ALL_BYTES - byte_set(expr, closure_var(params), enc))
+
+    def stop_byte(b):
+        """the single byte at which `.take_while(|b| b != X)` stops"""
+        (params, expr), = closures(b, "take_while")
+        (x,) = ALL_BYTES - byte_set(expr, closure_var(params), enc)
+        return x
 
     def hexws():
         b = fn_body(enc, "decode_hex")
-        m = re.search(r"filter\(\|&b\|\s*!matches!\(b,\s*([^)]*)\)\)", b)
-        e = re.search(r"take_while\(\|&b\|\s*b\s*!=\s*(" + LIT + r")\)", b)
-        return cl(alt_set(m.group(1))), str(lit(e.group(1)))
+        return cl(dropped_by_filter(b)), str(stop_byte(b))
     g.attempt([("hexfilter_ws", "list N"), ("hex_eod", "N")], "enc.rs:decode_hex", hexws)
 
     def sym85():
-        b = fn_body(enc, "sym_85")
-        m = re.search(r"(\w+)\s*@\s*(" + LIT + r")\s*\.\.=\s*(" + LIT + r")\s*=>\s*Some\(\s*\1\s*-\s*(" + LIT + r")\s*\)", b)
-        if lit(m.group(4)) != lit(m.group(2)):
+        (lo, hi, k), = range_arms(fn_body(enc, "sym_85"))
+        if k != -lo:
             raise ValueError("sym_85 offset differs from range start")
-        return str(lit(m.group(2))), str(lit(m.group(3)))
+        return str(lo), str(hi)
     g.attempt([("sym85_lo", "N"), ("sym85_hi", "N")], "enc.rs:sym_85", sym85)
 
     def a85():
         b = fn_body(enc, "decode_85")
-        ws = re.search(r"filter\(\|&b\|\s*!matches!\(b,\s*([^)]*)\)\)", b)
-        til = re.search(r"take_while\(\|&b\|\s*b\s*!=\s*(" + LIT + r")\)", b)
-        z = re.search(r"Some\((" + LIT + r")\)\s*=>\s*out\.extend_from_slice\(&\[0;\s*4\]\)", b)
-        pad = re.search(r"None\s*=>\s*break\s*\(0,\s*\[(" + LIT + r");\s*5\]\)", b)
+        z = re.search(r"Some\(\s*(" + BYTE + r")\s*\)\s*=>\s*\w+\.extend_from_slice\(\s*&\[\s*0\s*;\s*4\s*\]\s*\)", b)
+        pad = re.search(r"None\s*=>\s*break\s*\(\s*0\s*,\s*\[\s*(" + BYTE + r")\s*;\s*5\s*\]\s*\)", b)
         pads = set()
-        for mm in re.finditer(r"break\s*\(([1-4]),\s*\[([^\]]*)\]\)", b):
-            pads |= set(lit(t) for t in re.findall(r"b'(?:\\.|[^'\\])'", mm.group(2)))
-        if pads != {lit(pad.group(1))}:
+        for mm in re.finditer(r"break\s*\(\s*([1-4])\s*,\s*\[([^\]]*)\]\s*\)", b):
+            pads |= set(int_value(t) for t in split_top(mm.group(2), ",") if re.fullmatch(BYTE, t))
+        if pads != {int_value(pad.group(1))}:
             raise ValueError("tail padding bytes differ: %r" % pads)
-        gt = re.search(r"\(Some\((" + LIT + r")\),\s*None\)\s*=>\s*Ok\(out\)", b)
-        return cl(alt_set(ws.group(1))), str(lit(til.group(1))), str(lit(z.group(1))), str(lit(pad.group(1))), str(lit(gt.group(1)))
+        gt = re.search(r"\(\s*Some\(\s*(" + BYTE + r")\s*\)\s*,\s*None\s*\)\s*=>\s*Ok\(\s*\w+\s*\)", b)
+        return (cl(dropped_by_filter(b)), str(stop_byte(b)), str(int_value(z.group(1))), str(int_value(pad.group(1))),
+                str(int_value(gt.group(1))))
     g.attempt([("a85_ws", "list N"), ("a85_tilde", "N"), ("a85_z", "N"), ("a85_pad", "N"), ("a85_gt", "N")], "enc.rs:decode_85", a85)
 
     def rle():
         b = fn_body(enc, "run_length_decode")
-        lt = re.search(r"if\s+length\s*<\s*(\d+)", b)
-        ge = re.search(r"else\s+if\s+length\s*>=\s*(\d+)", b)
-        base = re.search(r"let\s+copy\s*=\s*(\d+)\s*-\s*length", b)
-        return lt.group(1), ge.group(1), base.group(1)
+        lt = re.search(r"\bif\s+(\w+)\s*<\s*(" + BYTE + r")\s*\{", b)
+        v = lt.group(1)                                    # the length byte, whatever it is called
+        ge = re.search(r"else\s+if\s+" + v + r"\s*>=\s*(" + BYTE + r")\s*\{", b)
+        base = None
+        for m in re.finditer(r"(" + BYTE + r")\s*-\s*(\w+)", b):
+            if is_alias(m.group(2), v, b):
+                base = m
+                break
+        return str(int_value(lt.group(2))), str(int_value(ge.group(1))), str(int_value(base.group(1)))
     g.attempt([("rle_lit_below", "N"), ("rle_rep_from", "N"), ("rle_rep_base", "N")], "enc.rs:run_length_decode", rle)
 
     def ptags():
-        variants = item_body(enc, r"pub\s+enum\s+PredictorType\s*\{", "enum PredictorType")
-        order = [m.group(1) for m in re.finditer(r"(\w+)\s*=\s*\d+", variants)]
         b = fn_body(enc, "from_u8")
         out = []
-        for m in re.finditer(r"(\d+)\s*=>\s*Ok\(PredictorType::(\w+)\)", b):
-            out.append((int(m.group(1)), ["NoFilter", "Sub", "Up", "Avg", "Paeth"].index(m.group(2))))
+        for arm in match_arms(b, r"\w+"):
+            m = re.fullmatch(r"(?:Ok\s*\(\s*)?PredictorType::(\w+)\s*\)?", arm.expr)
+            if m and arm.guard is None and all(re.fullmatch(BYTE, p) for p in arm.pats):
+                for p in arm.pats:
+                    out.append((int_value(p), ["NoFilter", "Sub", "Up", "Avg", "Paeth"].index(m.group(1))))
         if not out:
             raise ValueError("no arms")
-        return ctuples(out)
+        return ctuples(ordered_by_key(out))
     g.attempt([("predictor_tags", "list (N * N)")], "enc.rs:PredictorType::from_u8", ptags)
 
     def pngthr():
         # smallest /Predictor value that selects the PNG un-prediction, and the TIFF value
         b = fn_body(enc, "unpredict")
-        m = re.search(r"if\s+predictor\s*(>=|>)\s*(\d+)\s*\{", b)
-        t = re.search(r"else\s+if\s+predictor\s*==\s*(\d+)\s*\{", b)
+        loc = re.search(r"let\s+(\w+)\s*=\s*\w+\.predictor\s*;", b)
+        v = r"(?:%s|\w+\.predictor)" % (loc.group(1) if loc else r"\w+\.predictor")
+        m = re.search(r"if\s+" + v + r"\s*(>=|>)\s*(\d+)\s*\{", b)
+        t = re.search(r"else\s+if\s+" + v + r"\s*==\s*(\d+)\s*\{", b)
         return "%d%%Z" % (int(m.group(2)) + (1 if m.group(1) == ">" else 0)), "%d%%Z" % int(t.group(1))
     g.attempt([("png_from", "Z"), ("tiff_pred", "Z")], "enc.rs:unpredict", pngthr)
 
